@@ -60,9 +60,9 @@ pub fn run(ctx: &Ctx) {
          bytes == the conversion, consuming everything; the conversion == an owned value built independently from the neutral tree. \
          non-trivial = tree with >= 3 distinct kinds and a named node; distinct = hash(tree). per-kind hit counts in 'classes'",
     );
-    let n = ctx.tier.pick(60_000, 2_000_000);
+    let n = ctx.tier.pick(600_000, 6_000_000);
     ctx.par_proptest("random-trees", n, || schematree::arb_tree(TreeCfg::default()), |t, l| check(t, l));
-    let n = ctx.tier.pick(6_000, 100_000);
+    let n = ctx.tier.pick(30_000, 300_000);
     ctx.par_proptest("deep-and-wide", n, || schematree::arb_deep_or_wide(150, 200), |t, l| check(t, l));
     super::corpus_checks::c15(ctx);
 }
